@@ -196,6 +196,10 @@ pub struct PairCase {
     pub fault: Option<Fault>,
     /// client drops its last SendRequest when all requests have been issued
     pub drop_send_request_at_end: bool,
+    /// C20: decisions taken at the transport callbacks inside a connection's poll — whether (and which) runnable
+    /// application task is polled right there, as a thread running in parallel would; empty = never
+    #[serde(default)]
+    pub nest: Vec<u32>,
 }
 
 // ------------------------------------------------------------ generator
@@ -425,6 +429,7 @@ pub fn gen_pair(tapes: &[Vec<u32>], focus: Focus) -> PairCase {
         ops,
         fault,
         drop_send_request_at_end: t.chance(1, 2),
+        nest: vec![],
     }
 }
 
@@ -1385,6 +1390,10 @@ pub struct PairRun {
     /// live heap bytes allocated by connection-task polls (see heapmeter): running maximum and value at the end of the run
     pub heap_peak: i64,
     pub heap_end: i64,
+    /// C20: application-task polls performed inside a connection's poll, and transport callbacks at which the
+    /// connection still held one of its locks
+    pub nested: u64,
+    pub lock_held: Vec<String>,
 }
 
 pub fn run_pair(case: &PairCase) -> PairRun {
@@ -1400,7 +1409,45 @@ pub fn run_sim(case: &PairCase, raw: Option<(Side, Rc<crate::sim_raw::RawSpec>, 
 pub fn run_sim_cap(case: &PairCase, raw: Option<(Side, Rc<crate::sim_raw::RawSpec>, Rc<RefCell<crate::sim_raw::PeerObs>>)>, e_out_cap: Option<usize>) -> PairRun {
     crate::heapmeter::begin_case();
     let mut exec = Exec::new(case.sched.clone());
-    let (cio, sio, wire) = duplex(&exec, case.chunk_c2s.clone(), case.chunk_s2c.clone(), case.vectored_c, case.vectored_s);
+    let (mut cio, mut sio, wire) = duplex(&exec, case.chunk_c2s.clone(), case.chunk_s2c.clone(), case.vectored_c, case.vectored_s);
+    let probes_shared: Rc<RefCell<Vec<(Side, h2::verif::VerifProbe)>>> = Rc::new(RefCell::new(Vec::new()));
+    let lock_held: Rc<RefCell<Vec<String>>> = Rc::new(RefCell::new(Vec::new()));
+    if !case.nest.is_empty() {
+        let tape = Rc::new(RefCell::new(OwnedTape::new(case.nest.clone())));
+        let mk = |side: Side| -> Hook {
+            let nest = exec.nest();
+            let tape = tape.clone();
+            let probes = probes_shared.clone();
+            let lock_held = lock_held.clone();
+            Rc::new(move |at: &'static str| {
+                if nest.depth.get() > 0 {
+                    return;
+                }
+                let v = match tape.borrow_mut().next() {
+                    Some(v) => v,
+                    None => return,
+                };
+                if v % 3 != 0 {
+                    return;
+                }
+                // a thread calling into a handle here would block on (or find poisoned) any lock still held
+                for (s, p) in probes.borrow().iter() {
+                    if *s == side && !p.locks_free() {
+                        lock_held.borrow_mut().push(format!("{}:{}", side.name(), at));
+                        return;
+                    }
+                }
+                let r = nest.runnable_apps();
+                if r.is_empty() {
+                    return;
+                }
+                let pick = (((v >> 4) as u64 * r.len() as u64) >> 28) as usize;
+                nest.poll_nested(r[pick.min(r.len() - 1)]);
+            })
+        };
+        cio.hook = Some(mk(Side::Client));
+        sio.hook = Some(mk(Side::Server));
+    }
     if let (Some(cap), Some((side, _, _))) = (e_out_cap, raw.as_ref()) {
         let p = if *side == Side::Server { &wire.s2c } else { &wire.c2s };
         p.borrow_mut().cap = cap.max(64);
@@ -1410,7 +1457,8 @@ pub fn run_sim_cap(case: &PairCase, raw: Option<(Side, Rc<crate::sim_raw::RawSpe
         p.borrow_mut().cut_at = Some((f.at, f.kind));
     }
     let log = Log::new(&exec);
-    let ctx = Ctx { log: log.clone(), sp: exec.spawner(), reqs: Rc::new(case.reqs.clone()), probes: Rc::new(RefCell::new(Vec::new())) };
+    // (the last reference to a probe must be dropped inside the teardown's panic containment: no local copy)
+    let ctx = Ctx { log: log.clone(), sp: exec.spawner(), reqs: Rc::new(case.reqs.clone()), probes: probes_shared };
     let ccmd = Rc::new(RefCell::new(CmdQ::default()));
     let scmd = Rc::new(RefCell::new(CmdQ::default()));
     let rc = Rc::new(case.clone());
@@ -1545,6 +1593,8 @@ pub fn run_sim_cap(case: &PairCase, raw: Option<(Side, Rc<crate::sim_raw::RawSpe
             wire,
             heap_peak: crate::heapmeter::peak(),
             heap_end: crate::heapmeter::live(),
+            nested: exec.nested_polls(),
+            lock_held: lock_held.borrow().clone(),
         };
         teardown_all(exec, ctx, &mut run);
         crate::heapmeter::end_case();
@@ -1563,6 +1613,8 @@ pub fn run_sim_cap(case: &PairCase, raw: Option<(Side, Rc<crate::sim_raw::RawSpe
         wire,
         heap_peak: crate::heapmeter::peak(),
         heap_end: crate::heapmeter::live(),
+        nested: exec.nested_polls(),
+        lock_held: lock_held.borrow().clone(),
     };
     teardown_all(exec, ctx, &mut run);
     crate::heapmeter::end_case();
